@@ -67,11 +67,18 @@ def s_affine_law(eng, result):
 
 def sc_mirror(cls, dim, meth):
     def setup(eng):
-        def build(eng):
+        def build(eng, warm=False):
             s = scheme(cls, dim)
+            if warm:        # the mirrors in the OTHER coordinates were requested before (their caches are filled)
+                for f in ("_mirror_x", "_mirror_y", "_mirror_z")[:dim]:
+                    if f != "_" + meth:
+                        s.fields[f] = scheme(cls, dim, name="cached" + f)
             eng.ghost.update(dict(s=s, dim=dim, meth=meth))
             return dict(self=s)
-        return [dict(label="", args=build)]
+        scen = [dict(label="", args=build)]
+        if dim > 1:
+            scen.append(dict(label="other-mirrors-cached", args=lambda eng: build(eng, True)))
+        return scen
     return setup
 
 
@@ -87,7 +94,9 @@ def s_mirror_law(eng, result):
         out.append(num_cmp("==", rp[k].elem(i), want))
     # asking again returns the cached rule
     again = eng.call(eng.getattr(s, meth), [])
-    return b_and(again is result, *out)
+    # the mirror is a scheme of its own: it must not carry the parent's cached mirrors (a chained mirror would return them)
+    fresh = all(result.fields.get(f) is None for f in ("_mirror", "_mirror_x", "_mirror_y", "_mirror_z") if f in result.fields)
+    return b_and(again is result, fresh, result is not s, *out)
 
 
 REPLAY_INTEGRATE = '''
